@@ -1903,6 +1903,13 @@ class Engine:
             dotted = ast.unparse(f)
             if dotted in self.builtins:
                 return self.builtins[dotted](self, n, st)
+            if isinstance(f.value, ast.Call) and isinstance(f.value.func, ast.Name) and f.value.func.id == "super" and not f.value.args:
+                # super().m(...): the contract of the base class's method (the sidecar names the base: BASES), applied to self
+                cls = self.cur_func.split(".")[0]
+                base = getattr(self, "class_bases", {}).get(cls)
+                if base is None or f"{base}.{f.attr}" not in self.contracts or "self" not in st.env:
+                    raise Unsupported(f"super().{f.attr} (no base class contract {base}.{f.attr})", n)
+                return self.call_contract(self.contracts[f"{base}.{f.attr}"], n, st, st.env["self"])
             obj = self.expr(f.value, st)
             key = f"{self.ty_family(obj.ty)}.{f.attr}"
             if key in self.methods:
